@@ -557,7 +557,21 @@ func progEvent(doc orderedJSON, hist int) obj {
 			ev["failed"], ev["errmsg"] = "history", "the API history did not build the document"
 			return
 		}
-		jb, err := json.Marshal(m)
+		var jb []byte
+		var err error
+		if (hist+len(doc))%2 == 1 {
+			// the encoder called directly, its result HELD while another map is encoded the same way: the bytes a caller
+			// was given are the caller's
+			jb, err = m.MarshalJSON()
+			if err == nil {
+				other := ordered.MapFromItems(ordered.TupleSA{Key: "other-map", Value: strings.Repeat("x", len(jb)+16)}, ordered.TupleSA{Key: "n", Value: 1})
+				if _, oerr := other.MarshalJSON(); oerr != nil {
+					panic("driver: encoding the other map: " + oerr.Error())
+				}
+			}
+		} else {
+			jb, err = json.Marshal(m)
+		}
 		if err != nil {
 			ev["failed"], ev["errmsg"] = "json.Marshal", err.Error()
 			return
